@@ -172,8 +172,7 @@ fn is_str(m: &str) -> bool {
 /// Bias the state (and patch displacement / immediate fields of the encoding) using the operand
 /// list.  Returns nothing; everything it changes is part of the case.
 fn aim(t: &mut Tape, mode64: bool, bytes: &mut Vec<u8>, d: &Dec, gpr: &mut [u64; 16], pokes: &mut Vec<(u64, u64, u8)>) {
-    let mn = d.mnemonic.as_str();
-    let mn = mn.strip_prefix("rep ").or(mn.strip_prefix("repne ")).or(mn.strip_prefix("repe ")).or(mn.strip_prefix("lock ")).unwrap_or(mn);
+    let mn = crate::cmp::base_mnemonic(d.mnemonic.as_str());
     let len = d.len as u64;
     let addr32 = d.addr_size == 4 && mode64;
     let amask: u64 = if addr32 || !mode64 { 0xffff_ffff } else { u64::MAX };
